@@ -42,6 +42,8 @@ def ref_samples(seed, n):
 
 def chain_seed(seed, sname):
     """16-byte seeds, plus seeds longer than a hash block input of 32 bytes that share their first 32 bytes"""
+    if sname.startswith('Z'):          # seeds made of zero bytes only (1, 16, 32 bytes), and one that merely begins with zeros
+        return {'Z1': b'\x00', 'Z16': bytes(16), 'Z32': bytes(32), 'Z31+1': bytes(31) + b'\x01'}[sname]
     if sname.startswith('L'):
         return env.sym(seed, 'c18.seed.long', 32) + {'L33a': b'a', 'L33b': b'b', 'L64': env.sym(seed, 'c18.seed.tail', 32)}[sname]
     return env.sym(seed, 'c18.seed.' + sname, 16)
@@ -320,7 +322,7 @@ def blocks(tier, seed):
     q = tier == 'quick'
     nmax = 8 if q else 13
     seeds_ = ('s0', 's1', 's2') if q else ('s0', 's1', 's2', 's3', 's4')
-    sc = [(s, n) for s in seeds_ for n in range(1, nmax + 1)] + [(s, n) for s in ('L33a', 'L33b', 'L64') for n in (2, 3, 5)]
+    sc = [(s, n) for s in seeds_ for n in range(1, nmax + 1)] + [(s, n) for s in ('L33a', 'L33b', 'L64', 'Z1', 'Z16', 'Z32', 'Z31+1') for n in (2, 3, 5)]
     rc = [(s, n, r, f) for s in seeds_ for n in range(1, nmax + 1) for r in (False, True)
           for f in ('00', '01')]
     rc += [('s0', n, r, f) for n in (2, 3) for r in (False, True) for f in ('02', '08', '20', '40', '80', 'a5', 'fe')]
